@@ -36,7 +36,7 @@ import (
 
 type c15Step struct {
 	// 0 NotifyJoin 1 NotifyLeave 2 NotifyUpdate 3 join intent 4 leave intent 5 local RemoveFailedNode 6 reap
-	// 7 reap exactly one nanosecond before (Rel<0) / after (Rel>0) the timeout of the M-th failed-or-left member runs out
+	// 7 reap exactly one nanosecond before (Rel<0) / at the very instant (Rel==0) / one nanosecond after (Rel>0) the timeout of the M-th failed-or-left member runs out
 	// 8 push/pull: member M at its status time + Rel, on the left list if Prune is set; member Tag as a plain status time
 	Kind  int  `json:"k"`
 	M     int  `json:"m"`
@@ -86,7 +86,7 @@ func genC15(t *rapid.T) c15Case {
 			M: rapid.IntRange(0, c.Members-1).Draw(t, "m")}
 		switch st.Kind {
 		case 7:
-			st.Rel = rapid.SampledFrom([]int{-1, 1}).Draw(t, "side")
+			st.Rel = rapid.SampledFrom([]int{-1, 0, 0, 1}).Draw(t, "side")
 		case 8:
 			st.Rel = rapid.SampledFrom([]int{-1, 0, 1, 1, 2}).Draw(t, "rel")
 			st.Prune = rapid.Bool().Draw(t, "left")
@@ -428,6 +428,8 @@ func bodyC15(c c15Case, x *vkit.Ctx) {
 			delta := time.Nanosecond
 			if st.Rel < 0 {
 				delta = -time.Nanosecond
+			} else if st.Rel == 0 {
+				delta = 0 // exactly up is not yet "past" the timeout: the member stays
 			}
 			now := tg.since.Add(tg.timeout + delta)
 			what = fmt.Sprintf("reap %v relative to the end of %s's timeout (%v)", delta, tg.name, tg.timeout)
